@@ -393,6 +393,11 @@ class Wtp:
 
         if self.backup_db_path.exists():
             self.db_path.unlink(True)
+            # A write-ahead log left behind by a killed process belongs to
+            # the file being replaced; applied to the restored file it would
+            # bring back the page versions written after the backup.
+            for suffix in ("-wal", "-shm"):
+                self.db_path.with_name(self.db_path.name + suffix).unlink(True)
             self.backup_db_path.rename(self.db_path)
 
         self.db_conn = sqlite3.connect(self.db_path, check_same_thread=False)
